@@ -98,6 +98,13 @@ func (sw *streamWrapper) handleResponses() {
 			slog.Any("err", err),
 		)
 
+		if len(sw.pendingRequests) == 0 {
+			// The stream was closed (handleStreamClosed has already failed every pending
+			// request) while this response was still in flight: there is nobody to hand it to.
+			sw.Unlock()
+			continue
+		}
+
 		var f concurrent.Future[*proto.WriteResponse]
 		f, sw.pendingRequests = sw.pendingRequests[0], sw.pendingRequests[1:]
 		sw.Unlock()
